@@ -104,3 +104,10 @@ macro_rules! verif_tbl {
 		$($item)*
 	};
 }
+
+/// Uninterpreted checksum (C13.P3 gate harnesses): `update` does nothing, `finalize` returns one fixed arbitrary value.
+/// Sound for obligations that only need "stored checksum == computed checksum" as an opaque predicate; the CRC function
+/// itself is exercised with the real portable implementation in C13.P1b and the thorough P3 harness.
+pub static mut CRC_VAL: u32 = 0;
+pub fn crc_update_noop(_h: &mut crc32fast::Hasher, _b: &[u8]) {}
+pub fn crc_finalize_uninterpreted(h: crc32fast::Hasher) -> u32 { std::mem::forget(h); unsafe { CRC_VAL } }
